@@ -29,7 +29,27 @@ Deliberately permissive (statement silent / Excel versions differ)
 * several error arguments: any of them may come out; an error together with non-numeric text:
   that error or #VALUE!.
 * the sign of a zero result and the int/float type of results are not looked at.
-* non-integral digit counts and text such as "TRUE" or "1e2" are not generated (not in the statement).
+* a non-integral digit count (reached only through the numeric text "2.5", "0.29", "-0.5") passes
+  with either neighbouring integer; text such as "TRUE" or "1e2" is not generated (the statement
+  says nothing about coercion beyond numbers).
+* MOD: the exact remainder of the *binary* values (Python's %, C fmod), e.g. MOD(1, 0.1) =
+  0.0999999999999999, is NOT accepted: with q = INT(1/0.1) = 10 the identity n = d*q + MOD fails by a
+  whole divisor.  (Real Excel is reported to show 0.1 for this formula as well; the statement's
+  identity and DESIGN.md section 5/6 decide here.)
+
+Mechanism keys (a predicate over function and input class, see judge_*):
+  ROUND/negative-digits-half-even   digits < 0, x an exact tie, result = the even neighbour toward zero
+  TRUNC/float-scaling               x*10^d within 2^-44 of an integer and the result one step off, or
+                                    digits < 0 and the result within 8 ulp of the right multiple
+  <F>/non-dyadic-significance       F in the CEILING/FLOOR family, significance not exactly representable
+                                    in binary, x an (almost) exact multiple, result one significance off
+  MOD/identity-broken-non-dyadic-divisor   divisor not exactly representable, n an (almost) exact
+                                    multiple of it, identity off by one divisor
+  <F>/exception-<Class>, <F>/error-argument-not-propagated, <F>/text-argument-not-#VALUE!,
+  <F>/unexpected-error-<code>, <F>/wrong-type, MOD/zero-divisor-not-#DIV/0!, MOD/sign,
+  MOD/identity-unclassified, <F>/formula-differs-from-wrapper, <F>/unclassified
+The set of ties is enumerated completely in the thorough tier; the whole domain (14e6 values of x
+times 13 digit counts times 4 functions) is not, hence EXHAUSTIVE is False for both tiers.
 """
 import math
 from fractions import Fraction
@@ -51,7 +71,7 @@ RULE = ('x = k/10^j (|k| <= 10^6, j 0..6; ints passed both as int and float) x d
         'Decimal(repr(x)). A case = one call (function, arguments); non-trivial = the expected outcome is '
         'a number fixed by the rounding rule (not an error or coercion shortcut); distinct = by '
         '(function, arguments).')
-BUDGET = {'quick': 22, 'thorough': 200}
+BUDGET = {'quick': 18, 'thorough': 200}
 EXHAUSTIVE = {'quick': False, 'thorough': False}
 ASSUMPTIONS = [
     'magnitudes |x| <= 1e6 (+1e-6), digits within -6..6, significances and divisors from finite pools',
@@ -72,6 +92,8 @@ FUNCS = {
 DEFAULTS = {'TRUNC': (None, 0), 'CEILING.MATH': (None, 1, 0), 'FLOOR.MATH': (None, 1, 0),
             'CEILING.PRECISE': (None, 1), 'FLOOR.PRECISE': (None, 1)}
 ROUNDERS = {'ROUND': 'half', 'ROUNDUP': 'up', 'ROUNDDOWN': 'down', 'TRUNC': 'down'}
+SAMPLED = ('FLOOR', 'MOD', 'ODD', 'ROUND', 'TRUNC')      # one case of each goes into the evidence samples
+DIRECTION = {'half': 'nearest to', 'down': 'toward zero from', 'up': 'away from zero from'}
 FAMILY = ('CEILING', 'FLOOR', 'CEILING.MATH', 'FLOOR.MATH', 'CEILING.PRECISE', 'FLOOR.PRECISE')
 
 SIG_POS = (1, 2, 5, 10, 3, 100, 0.5, 0.25, 0.1, 0.01, 0.3, 0.2, 0.05, 0.7, 0.001)
@@ -114,7 +136,7 @@ SIZES = {
 # =========================================================================== the oracle
 
 def fmt(v):
-    return repr(float(v)) if isinstance(v, Fraction) else repr(v)
+    return repr(float(v)) if isinstance(v, Fraction) else str(v)
 
 
 def numbers_for(F, args):
@@ -191,7 +213,7 @@ def judge_round(F, shown, x, d, got):
         # the inexact double 10^d (negative digits)
         key = 'TRUNC/float-scaling'
     return key, (f'{shown} = {got!r}, expected {fmt(want)} (the multiple of 10^{-d} '
-                 f'{ {"half": "nearest to", "down": "toward zero from", "up": "away from zero from"}[mode]} '
+                 f'{DIRECTION[mode]} '
                  f'{q}; x is {pos}); failed: {", ".join(failed)}')
 
 
@@ -273,7 +295,7 @@ class Monitor:
             self.pending.append((F, args, out))
             if len(self.pending) >= 40:
                 self.flush()
-        if F not in self.sampled and self.n % 997 == 1:
+        if F in SAMPLED and F not in self.sampled and self.n % 97 == 1:
             self.sampled.add(F)
             ctx.sample({'f': F, 'args': args, 'outcome': out, 'verdict': verdict and verdict[0]}, limit=6)
         return out
